@@ -147,4 +147,5 @@ def main():
         sys.stdout.flush()
 
 
-main()
+if __name__ == '__main__':
+    main()
